@@ -221,12 +221,12 @@ REQUIRES = ["PV.Model.Val", "PV.Model.XQ", "PV.Model.BoundsCheck"]
 
 
 REQUIRES_SRC = REQUIRES + ["PV.Model.BoundsSrc", "PV.gen.Src_bounds"]
-OK_FUN_SRC = "fun c => xval_ok (construct_with src_prog (fst c)) (snd c)"
+OK_FUN_SRC = "fun c => xval_ok (construct_with2 src_head src_prog (fst c)) (snd c)"
 
 
 def run_cases_both(name, cases, shard=1700, timeout=900):
     """Like core.run_cases, but every shard is evaluated twice on the SAME literals: by the hand-written model (OK_FUN) and by
-    the generic interpreter on the GENERATED program (OK_FUN_SRC).  Returns (compiled, bad_model, bad_src, log)."""
+    the generic interpreters on the GENERATED programs src_head / src_prog (OK_FUN_SRC).  Returns (compiled, bad_model, bad_src, log)."""
     from concurrent.futures import ThreadPoolExecutor
     from vlib import core
     tg = [r[3:].replace(".", "/") + ".vo" for r in REQUIRES_SRC if r.startswith("PV.")]
